@@ -185,6 +185,43 @@ pub fn run(tier: Tier) -> i32 {
     let depths: std::collections::HashMap<String, (usize, usize)> = built.iter().map(|(s, d)| (s.name.clone(), *d)).collect();
     let systems: Vec<_> = built.into_iter().map(|(s, _)| s).collect();
     explore_all(&mut rep, &systems, |s| tier.pick(depths[&s.name].0, depths[&s.name].1), tier.pick(12.0, 300.0));
+    // engine validation: stateright's own breadth-first checker explores the same systems (same
+    // real transition function, its own visited set, an independent 128-bit key hash) and must
+    // count exactly the states E1 counts.  One child process per world, single-threaded each
+    // (stateright's parallel search is not exact under a depth bound).
+    let names: Vec<String> = systems.iter().map(|s| s.name.clone()).collect();
+    let children: Vec<_> = names
+        .iter()
+        .map(|n| {
+            let d = tier.pick(3, if n == "3p-mixed" { 4 } else { 5 });
+            (n.clone(), d, std::process::Command::new("/verif/target/sr/release/srck").arg(d.to_string()).arg(n).stdout(std::process::Stdio::piped()).stderr(std::process::Stdio::null()).spawn())
+        })
+        .collect();
+    let mut cross = vec![];
+    for (n, d, c) in children {
+        let out = match c.and_then(|c| c.wait_with_output()) {
+            Ok(o) => o,
+            Err(e) => {
+                eprintln!("machinery error: cannot run the stateright cross-count for world {n}: {e}");
+                return 2;
+            }
+        };
+        let text = String::from_utf8_lossy(&out.stdout).to_string();
+        let line = text.lines().find_map(|l| l.strip_prefix("SRRESULT ")).and_then(|l| serde_json::from_str::<serde_json::Value>(l).ok());
+        match (out.status.code(), line) {
+            (Some(0), Some(v)) => cross.extend(v.as_array().cloned().unwrap_or_default()),
+            (Some(3), Some(v)) => {
+                eprintln!("machinery error: E1 and stateright disagree on the number of states of world {n} at depth {d}: {v}");
+                return 2;
+            }
+            (c, _) => {
+                eprintln!("machinery error: stateright cross-count for world {n} ended with status {c:?}");
+                return 2;
+            }
+        }
+    }
+    rep.cover("stateright_cross_count", json!(cross));
+    rep.assume("engine validation: for every world, stateright's BFS checker (single-threaded, own visited set, FNV-128 key hash) and E1 count the same number of unique states to the cross-count depth");
     rep.assume("filter: the real KalmanFilter (default configuration) behind a recording wrapper; clock: one recording clock shared by all ports, commands tagged with the issuing port");
     rep.finish()
 }
